@@ -129,11 +129,19 @@ class ModbusSim(PeerBase):
             return exc(req, code)
         if k == "read":
             cnt = req["count"]
+            if cnt == 0 and getattr(self, "zero_count_ok", False):
+                return ok(req, b"")          # lenient firmware: a read of zero registers is answered with an empty payload
             if cnt < 1 or cnt > 125:
                 return exc(req, 3)
             if self.is_refused(reg, cnt):
                 return exc(req, 2)
-            return ok(req, self.get_bytes(reg, cnt))
+            out_ = ok(req, self.get_bytes(reg, cnt))
+            if getattr(self, "drift", False) and cnt > 20:
+                # measurements move on between polls: the PV1 voltage rises by 0.1 V after every block read that contains it
+                for a_ in (35103, 30103):
+                    if reg <= a_ < reg + cnt:
+                        self.regs[a_] = (self.get(a_) + 1) % 6000
+            return out_
         if k == "write":
             if self.is_refused(reg, 1):
                 return exc(req, 2)
@@ -233,6 +241,9 @@ class Aa55Sim(ModbusSim):
             out = self.info
         elif c == "0106":
             out = bytes(self.runtime)
+            if getattr(self, "drift", False) and len(self.runtime) > 2:
+                self.runtime = bytearray(self.runtime)
+                self.runtime[1] = (self.runtime[1] + 1) % 200      # (vpv1 moves on between polls)
         elif c == "0109":
             out = bytes(self.settings)
         elif c == "011a":
